@@ -27,6 +27,7 @@ Failures(r, ln) ==
   CASE r.ev = "small" -> FailRows(r.m, r.rows, 1, ln)
     [] r.ev = "big"   -> FailIdx(r.facts, 1, ln)
     [] r.ev = "batch" -> IF BatchEventOk(r) THEN <<>> ELSE << <<ln, 1>> >>
+    [] r.ev = "batch_big" -> IF BatchBigOk(r) THEN <<>> ELSE << <<ln, 1>> >>
     [] OTHER -> << <<ln, 0>> >>
 
 TInit == l = 1 /\ bad = <<>>
